@@ -413,6 +413,76 @@ class Gen:
         return "\n".join(lines)
 
 
+FAULT_EXPRS = ["undefined_name", "1 % 0", "a + 'x'", "xs[99]", "d['missing']", "a.nope"]
+
+
+def inject_one_fault(src: str, r: random.Random):
+    """Fault injection proper: ONE failing construct at one evaluation point of an otherwise fault-free story, the
+    point chosen by kind first (so rare kinds are as likely as common ones).  Returns (source, kind) or (src, None)."""
+    import re as _re
+    lines = src.split("\n")
+    sites = {}
+    passage = None
+    in_py = False
+    for i, l in enumerate(lines):
+        st = l.strip()
+        if st.startswith("::"):
+            passage = st[2:].strip().split("(")[0].strip()
+            continue
+        if passage in (None, "Start"):
+            continue                      # the opening passage must construct
+        if st.startswith("@py"):
+            in_py = True
+            continue
+        if st == "@endpy":
+            in_py = False
+            continue
+        ind = len(l) - len(l.lstrip(" "))
+        depth = "nested" if ind else "top"
+        if in_py:
+            sites.setdefault("py-block-line", []).append(i)
+        elif st.startswith("~ ") and not st.startswith("~ tr ="):
+            sites.setdefault(f"stmt:{depth}", []).append(i)
+        elif st.startswith("@for "):
+            sites.setdefault("loop-collection", []).append(i)
+        elif st.startswith("@if ") or st.startswith("@elif "):
+            sites.setdefault("branch-condition", []).append(i)
+        elif st[:1] in "+*" and "] ->" in st:
+            if _re.match(r"[+*] \{", st):
+                sites.setdefault("choice-condition", []).append(i)
+            if st.endswith(")"):
+                sites.setdefault("choice-argument", []).append(i)
+        elif st.startswith("-> ") and st.endswith(")"):
+            sites.setdefault("jump-argument", []).append(i)
+        elif "{" in st and not st.startswith("@") and not st.startswith("["):
+            sites.setdefault(f"display:{depth}", []).append(i)
+    if not sites:
+        return src, None
+    kind = r.choice(sorted(sites))
+    i = r.choice(sites[kind])
+    l = lines[i]
+    ind = l[:len(l) - len(l.lstrip(" "))]
+    st = l.strip()
+    fe = r.choice(FAULT_EXPRS)
+    if kind.startswith("stmt") or kind == "py-block-line":
+        lines[i] = ind + ("~ " if kind.startswith("stmt") else "") + r.choice(FAULT_STMTS)
+    elif kind == "loop-collection":
+        m = _re.match(r"@for (\w+) in (.*):$", st)
+        if not m:
+            return src, None
+        lines[i] = ind + f"@for {m.group(1)} in {r.choice([fe, 'a', 'None'])}:"
+    elif kind == "branch-condition":
+        lines[i] = ind + st.split(" ", 1)[0] + " " + fe + ":"
+    elif kind == "choice-condition":
+        lines[i] = ind + _re.sub(r"^([+*]) \{[^}]*\}", lambda m: m.group(1) + " {" + fe + "}", st, count=1)
+    elif kind in ("choice-argument", "jump-argument"):
+        j = st.rfind("(")
+        lines[i] = ind + st[:j] + "(" + fe + ")"
+    else:
+        lines[i] = ind + _re.sub(r"\{[^{}]*\}", "{" + fe + "}", st, count=1)
+    return "\n".join(lines), kind
+
+
 def gen_ops(rng: random.Random, n: int, style: str = "mixed", saveload: bool = False):
     """Operation history: indices are resolved at run time modulo the number of offered choices when
     they are meant to be valid ('v'), or used literally when meant to be invalid."""
